@@ -742,6 +742,9 @@ fn exec(case: &W5Case, ctx: &mut Ctx) {
         (raw, text, back)
     });
     let Some((raw, req_text, back)) = built else { return };
+    if case.undated {
+        ctx.probe("fault_request_without_date");
+    }
     let transported_req = match back {
         Ok(r) => r,
         Err(e) => {
